@@ -13,8 +13,8 @@ Error annotations of the random-access readers (C18, reader half): the reads of 
 Every typed entry point of every reader is `try_(|| …).ctx(self)` or `fail!(in self, …)` — except, on the tree
 before the two C18 `fix:` commits, `EnumDeserializer::deserialize_enum` and
 `FixedSizeListDeserializer::deserialize_seq`: `AnnFixes.all` is the code that exists, `AnnFixes.pinned` the tree
-without those two wrappers.  The un-annotated model (`Reader.readAs`) is what is left when annotations are dropped
-(`Props/C18.lean`: `readAsA_erase`, checked per run by the `readann` suite as well).
+without those two wrappers.  The un-annotated model (`Reader.readAs`, the subject of the C02 / C17 theorems) is what is left when
+annotations are dropped (`eraseAnn`): NOT proved, checked on every read of every run by the `readann` suite.
 -/
 namespace SaModel.Read
 open SaModel
